@@ -534,6 +534,22 @@ func (c *Ctx) checkMedian(h *ssa.Function) {
 // voteAppendDistinct: the append of a vote is guarded by a membership test on the record's votes.
 func (c *Ctx) voteAppendDistinct(st *ssa.Store) bool {
 	p := c.P
+	// votes are appended in arrival order: a binary search over them (sort.Search…) is not a membership test
+	binSearch := false
+	ana.Instrs(st.Parent(), func(in ssa.Instruction) {
+		if cc, ok := in.(ssa.CallInstruction); ok {
+			if d, ok := ana.Describe(cc.Common()); ok && d.Pkg == "sort" && strings.HasPrefix(d.Name, "Search") {
+				for _, a := range cc.Common().Args {
+					if p.Leaves(a, ana.PVOpt{}).HasField("Attestation.Votes") {
+						binSearch = true
+					}
+				}
+			}
+		}
+	})
+	if binSearch {
+		return false
+	}
 	call := st.Val.(*ssa.Call)
 	var appended ssa.Value
 	if len(call.Call.Args) == 2 {
